@@ -5,6 +5,7 @@ import contextlib
 import copy
 import glob
 import hashlib
+import inspect
 import io
 import logging
 import os
@@ -39,6 +40,56 @@ def split(found):
     own = sorted({k.split('.', 1)[1] for k in found if k.startswith('self.')})
     oth = sorted({k.split('.', 1)[1] for k in found if not k.startswith('self.')})
     return own, oth
+
+
+NOARGS = {'prefix': 'none', 'witness_type': 'none', 'multisig': 'none', 'account': 'none', 'form': 'named'}
+ARGSPACE = {}            # call -> list of argument records, as printed by TLC from Leak!ArgSpace (set by the workers)
+
+
+def shown(v):
+    """A returned value together with its repr and str (and those of the elements of a returned list)."""
+    if v is None or isinstance(v, (str, bytes, int, float, dict)):
+        return [v]
+    if isinstance(v, (list, tuple)):
+        return [shown(x) for x in v]
+    out = [v]
+    for f in (repr, str):
+        try:
+            out.append(f(v))
+        except Exception:
+            pass
+    return out
+
+
+def reflect(obj):
+    """Everything that can be obtained from obj without further knowledge: every attribute, and the result of every
+    method that can be called without arguments (exceptions = nothing obtainable), plus what they print."""
+    out = {}
+    buf = io.StringIO()
+    with contextlib.redirect_stdout(buf):
+        for name in sorted(set(dir(obj))):
+            if name.startswith('__'):
+                continue
+            try:
+                v = getattr(obj, name)
+            except Exception:
+                continue
+            if inspect.isclass(v) or inspect.ismodule(v):
+                continue
+            if callable(v):
+                try:
+                    pars = inspect.signature(v).parameters.values()
+                except (TypeError, ValueError):
+                    continue
+                if any(p.default is p.empty and p.kind in (p.POSITIONAL_ONLY, p.POSITIONAL_OR_KEYWORD, p.KEYWORD_ONLY) for p in pars):
+                    continue
+                try:
+                    v = v()
+                except Exception:
+                    continue
+            out[name] = shown(v)
+    out['<printed>'] = buf.getvalue()
+    return out
 
 
 # =====================================================================================================================
@@ -108,6 +159,8 @@ class KeyWorld:
             self.wt = wt
         self.kind = start
         self.nchild = 0
+        self.nargs = 0
+        self.seed = seed
         self.npath = seed % 6            # consecutive histories start with consecutive path shapes
 
     # -------------------------------------------------------------------------------------------------------------
@@ -147,13 +200,46 @@ class KeyWorld:
             raise RuntimeError('transaction does not verify after signing')
         return t
 
-    def perform(self, c):
+    def args_for(self, c):
+        """The next combination of optional arguments of call c from the specification's argument space."""
+        space = ARGSPACE.get(c)
+        if not space:
+            return dict(NOARGS)
+        self.nargs += 1
+        return dict(space[(self.seed + self.nargs) % len(space)])
+
+    def kwargs(self, a, extended=True):
+        """Concrete optional arguments for the abstract record a."""
+        rng = self.rng
+        kw = {}
+        if a['prefix'] != 'none':
+            if extended:
+                try:
+                    pre = self.subj.network.wif_prefix(is_private=rng.random() < 0.3, witness_type=rng.choice(WTS),
+                                                       multisig=rng.random() < 0.3)
+                except Exception:
+                    pre = bytes.fromhex(rng.choice(['0488b21e', '04b24746', '049d7cb2', '0488ade4']))
+            else:
+                pre = bytes([rng.choice([0x80, 0xcc, 0xef, 0x99])])
+            kw['prefix'] = pre if a['prefix'] == 'bytes' else (pre.hex() if rng.random() < 0.5 else pre.hex().upper())
+        if a['witness_type'] != 'none':
+            kw['witness_type'] = a['witness_type']
+        if a['multisig'] != 'none':
+            kw['multisig'] = a['multisig'] == 'true'
+        if a['account'] != 'none':
+            kw['account_id'] = int(a['account'])
+        return kw
+
+    def perform(self, c, a=None):
         """Returns (output to scan, new subject or None)."""
         from bitcoinlib.keys import HDKey, sign
         from bitcoinlib.transactions import Transaction
         k = self.subj
         kind = self.kind
         rng = self.rng
+        a = a or dict(NOARGS)
+        if c == 'reflect':
+            return reflect(k), None
         if c == 'copy':
             how = rng.random()
             return None, copy.deepcopy(k) if how < 0.4 else (pickle.loads(pickle.dumps(k)) if how < 0.8 else copy.copy(k))
@@ -168,8 +254,8 @@ class KeyWorld:
             return out, None
         if kind in ('key', 'hdkey'):
             if c == 'wif':
-                return (k.wif_key() if kind == 'hdkey' else k.wif()) if rng.random() < 0.8 else \
-                    (k.wif_key(prefix=b'\xcc') if kind == 'hdkey' else k.wif(prefix='cc')), None
+                kw = self.kwargs(a, extended=False)
+                return (k.wif_key(**kw) if kind == 'hdkey' else k.wif(**kw)), None
             if c == 'as_dict':
                 return [k.as_dict(), k.as_json()], None
             if c == 'as_dict_priv':
@@ -190,10 +276,12 @@ class KeyWorld:
                 self.kind = 'tx'
                 return None, t
         if kind == 'hdkey':
-            if c == 'wif_public':
-                return [k.wif_public(), k.wif(), k.wif(is_private=False)], None
-            if c == 'wif_private':
-                return [k.wif_private(), k.wif(is_private=True)], None
+            if c in ('wif_public', 'wif_private'):
+                kw = self.kwargs(a)
+                if c == 'wif_public':
+                    return (k.wif_public(**kw) if a['form'] == 'named' else
+                            [k.wif(is_private=False, **kw), k.wif(**kw), k.wif(is_private=None, **kw)]), None
+                return (k.wif_private(**kw) if a['form'] == 'named' else k.wif(is_private=True, **kw)), None
             if c in ('child_priv', 'child_pub'):
                 i = rng.choice([0, 1, 7, 2 ** 31 - 1])
                 hard = c == 'child_priv' and rng.random() < 0.5
@@ -223,8 +311,14 @@ class KeyWorld:
                     self._descend(lambda sh: sh.subkey_for_path(['m'] + levels))
                 return None, new
             if c in ('public_master', 'public_master_priv'):
-                new = k.public_master(as_private=(c == 'public_master_priv'))
-                self._descend(lambda sh: sh.public_master(as_private=True))
+                kw = self.kwargs(a)
+                if a['form'] == 'named' and a['multisig'] == 'true':
+                    kw.pop('multisig')
+                    new = k.public_master_multisig(as_private=(c == 'public_master_priv'), **kw)
+                    kw['multisig'] = True
+                else:
+                    new = k.public_master(as_private=(c == 'public_master_priv'), **kw)
+                self._descend(lambda sh: sh.public_master(as_private=True, **kw))
                 return None, new
         if kind == 'sig':
             if c == 'as_der':
@@ -267,8 +361,9 @@ def replay_key_history(start, hist, seed):
         err = ''
         kind_before, shadow_before, others_before, nchild_before = w.kind, w.shadow, dict(w.others), w.nchild
         new_subject = False
+        a = w.args_for(c)
         try:
-            out, new = w.perform(c)
+            out, new = w.perform(c, a)
             if new is not None:
                 w.subj = new
                 new_subject = True
@@ -291,7 +386,7 @@ def replay_key_history(start, hist, seed):
                 pass
         os_, oo = split(fo)
         hs, ho = split(fh)
-        steps.append({'c': c, 'ok': ok, 'os': os_, 'oo': oo, 'hs': hs, 'ho': ho})
+        steps.append({'c': c, 'a': a, 'ok': ok, 'os': os_, 'oo': oo, 'hs': hs, 'ho': ho})
         where.append({'out': {a: b for a, b in fo.items()}, 'held': {a: b for a, b in fh.items()}, 'err': err,
                       'kind': w.kind, 'private': bool(getattr(w.subj, 'is_private', False))})
     if w.tmp:
@@ -303,6 +398,9 @@ def replay_key_history(start, hist, seed):
 def key_worker(job):
     logging.disable(logging.CRITICAL)
     out = []
+    argspace, job = job
+    ARGSPACE.clear()
+    ARGSPACE.update(argspace)
     for start, hist, seed in job:
         out.append(replay_key_history(start, hist, seed))
     return out
@@ -320,7 +418,7 @@ WALLET_KINDS = [('hd_master', 'segwit'), ('hd_acct_priv', None), ('single_wif', 
                 ('hd_passphrase', None), ('hd_purpose', None),
                 # wallets that are not private at their main key and acquire private keys later (call import_private)
                 ('watch_acct_import', None), ('watch_single_import', None), ('watch_ms_import', None), ('watch_master_import', None),
-                ('watch_acct_import', None), ('watch_single_import', None)]
+                ('watch_acct_import', None), ('watch_single_import', None), ('ms_all_priv', None)]
 IMPORT_ROUTES = ('watch_acct_import', 'watch_single_import', 'watch_ms_import', 'watch_master_import')
 MAY_REFUSE = ('hd_other_depth',)         # creation routes the library may legitimately refuse
 W_FILLERS = ['get_key', 'new_key', 'new_account', 'key_lookup', 'mainkey_key', 'wif_priv', 'as_dict_priv', 'keys_priv', 'send', 'reopen',
@@ -328,21 +426,6 @@ W_FILLERS = ['get_key', 'new_key', 'new_account', 'key_lookup', 'mainkey_key', '
 W_VIEWS = ['repr', 'as_dict', 'info', 'wif_pub', 'public_master', 'keys_as_dict', 'wk_repr', 'wk_as_dict', 'wk_public',
            'tx_views', 'tx_save', 'addresses']
 W_WATCH_BATTERY = ['as_dict_priv', 'wif_priv', 'keys_priv', 'public_master', 'wk_repr', 'mainkey_key', 'as_dict', 'send', 'tx_save']
-
-
-def shown(v):
-    """A returned value together with its repr and str (and those of the elements of a returned list)."""
-    if v is None or isinstance(v, (str, bytes, int, float, dict)):
-        return [v]
-    if isinstance(v, (list, tuple)):
-        return [shown(x) for x in v]
-    out = [v]
-    for f in (repr, str):
-        try:
-            out.append(f(v))
-        except Exception:
-            pass
-    return out
 
 
 class WalletWorld:
@@ -419,6 +502,9 @@ class WalletWorld:
             elif route == 'ms_priv_priv_pub':
                 keys = [a, c, pub(b)]
                 kw['cosigner_id'] = rng.choice([0, 1])
+            elif route == 'ms_all_priv':
+                keys = [a, b] if rng.random() < 0.5 else [a, b, c]
+                kw['cosigner_id'] = rng.randrange(len(keys))
             elif route == 'ms_acctpriv_pub':
                 keys = [a.public_master_multisig(witness_type=wt, as_private=True), pub(b)]
                 kw['sigs_required'] = rng.choice([1, 2])
@@ -472,6 +558,14 @@ class WalletWorld:
         o = sorted({k.split('.', 1)[1] for k in found if k.split('.', 1)[0] in own})
         x = sorted({k.split('.', 1)[1] for k in found if k.split('.', 1)[0] not in own})
         return {'priv': bool(priv), 'signed': bool(signed), 'own': o, 'other': x, '_where': {k: str(v)[:80] for k, v in found.items()}}
+
+    def reflect_keys(self, p):
+        """reflection of the HDKey object(s) a (public) wallet key hands out"""
+        try:
+            k = p.key()
+        except Exception:
+            return None
+        return [reflect(x) for x in (k if isinstance(k, list) else [k]) if x is not None]
 
     def accounts(self):
         try:
@@ -602,8 +696,8 @@ class WalletWorld:
                 for p in (pm if isinstance(pm, list) else [pm]):
                     k = p.key()
                     items.append(self.item([shown(p), p.as_dict(), p.wif, p.key_private, p.keys_private, shown(k),
-                                            [x.as_dict() for x in (k if isinstance(k, list) else [k]) if x is not None]],
-                                           what='public_master(%s)' % kw))
+                                            [x.as_dict() for x in (k if isinstance(k, list) else [k]) if x is not None],
+                                            reflect(p), self.reflect_keys(p)], what='public_master(%s)' % kw))
             if not items:
                 raise LookupError('no public master available')
             return items
@@ -637,10 +731,11 @@ class WalletWorld:
                 elif c == 'wk_as_dict':
                     items.append(self.item(wx.key(row.id).as_dict(), own, priv))
                 else:
-                    if row.key_type == 'multisig':
-                        continue
+                    # the public view of every kind of wallet key (bip32, single, multisig address keys, co-signer main
+                    # keys) and everything obtainable from it, by reflection, also from the key objects it hands out
                     p = wx.key(row.id).public()
-                    items.append(self.item([p, repr(p), p.as_dict(), p.wif], own, priv))
+                    items.append(self.item([shown(p), reflect(p), self.reflect_keys(p)], own, priv,
+                                           what='WalletKey %d (%s).public()' % (row.id, row.key_type)))
             return items
         if c == 'addresses':
             return [self.item([w.addresslist(), w.utxos(), w.transactions(as_dict=True), w.transactions_export(), w.balance(),
